@@ -7,6 +7,7 @@ import TJ.Props.StreamGen
 import TJ.Props.C02Gen
 import TJ.Props.C17Gen
 import TJ.Props.C15Gen
+import TJ.Props.C08Gen
 import TJ.Props.C12Gen
 import TJ.Props.C10Gen
 namespace TJ.Props.NonVacuous
@@ -95,5 +96,52 @@ example : ∃ fuel1 st1 fuel2 st2 XD out, callFun prog fuel1 idx_tinyjambu_prng_
   obtain ⟨f2, st2, Xp2, XD2, h2, _, _, _, _, _, d1, d2, d3⟩ := TJ.Props.C15Gen.generate_source_system st1 0 1 X1 XD1 0 0 4 40 0 ⟨_, _, 1, 32, st1.ent⟩ hx1 hobj1 hcb1 rfl hD1 (by decide) (by decide)
     (by rw [hx1s]; simp [ptrBase]) (by rw [hD1s]; simp [ptrBase]) (by rw [hD1s]; simp) (by rw [hmsz1]; simp)
   exact ⟨f1, st1, f2, st2, XD2, _, h1, h2, d1, d2, d3⟩
+
+/-- `mem6` plus a buffer for the recovered plaintext -/
+def mem7 : Array Block := mem6.push ⟨Array.replicate 16 (0, .undef), 0⟩
+
+/-- `TJ.Props.C01Gen.roundtrip_source` (TinyJAMBU-192 would need a 24-byte key; here 128): encrypt the 5-byte message of `mem6`, decrypt the ciphertext into block 6 at offset 3 -/
+example : ∃ fuel1 st1 fuel2 st2 blkQ l, callFun prog fuel1 (TJ.Props.C02Gen.encIdx .v128) false
+      [(mkPtr 0 (0 + 4), .pub), (mkPtr 1 (0 + 0), .pub), (mkPtr 2 (0 + 0), .pub), (5, .pub), (mkPtr 3 (0 + 0), .pub), (3, .pub), (mkPtr 4 (0 + 0), .pub), (mkPtr 5 (0 + 0), .pub)] ⟨mem7, [], []⟩ =
+      .ok .normal #[(0, .pub), (mkPtr 0 (0 + 4), .pub), (mkPtr 1 (0 + 0), .pub), (mkPtr 2 (0 + 0), .pub), (5, .pub), (mkPtr 3 (0 + 0), .pub), (3, .pub), (mkPtr 4 (0 + 0), .pub),
+        (mkPtr 5 (0 + 0), .pub)] st1 ∧
+    callFun prog fuel2 (TJ.Props.C01Gen.decIdx .v128) true
+      [(mkPtr 6 (0 + 3), .pub), (mkPtr 1 (0 + 0), .pub), (mkPtr 0 (0 + 4), .pub), (5 + 8, .pub), (mkPtr 3 (0 + 0), .pub), (3, .pub), (mkPtr 4 (0 + 0), .pub), (mkPtr 5 (0 + 0), .pub)] st1 =
+      .ok .normal #[(0, l), (mkPtr 6 (0 + 3), .pub), (mkPtr 1 (0 + 0), .pub), (mkPtr 0 (0 + 4), .pub), (5 + 8, .pub), (mkPtr 3 (0 + 0), .pub), (3, .pub), (mkPtr 4 (0 + 0), .pub),
+        (mkPtr 5 (0 + 0), .pub)] st2 ∧
+    st2.mem[6]? = some blkQ ∧ BytesV blkQ.bytes 3 [5, 6, 7, 8, 9] := by
+  obtain ⟨f1, st1, f2, st2, blkQ, l, h1, h2, h3, _, h5⟩ := TJ.Props.C01Gen.roundtrip_source .v128 ⟨mem7, [], []⟩ 0 0 4 (Array.replicate 32 (0, .undef)) 6 0 3 (Array.replicate 16 (0, .undef))
+    1 0 0 (Array.replicate 8 (0, .undef)) 2 0 0 _ 3 0 0 _ 4 0 0 _ 5 0 0 _ [5, 6, 7, 8, 9] [1, 2, 3] (List.replicate 12 4) (List.replicate 16 0xAB)
+    rfl (by simp [ptrBase]) (by simp) rfl (by simp [ptrBase]) (by simp) rfl (by simp [ptrBase]) (by simp) (by decide)
+    ⟨rfl, by simp [ptrBase], bytesV_lab _ _ (by decide)⟩ ⟨rfl, by simp [ptrBase], bytesV_lab _ _ (by decide)⟩ ⟨rfl, by simp [ptrBase], bytesV_lab _ _ (by decide)⟩
+    ⟨rfl, by simp [ptrBase], bytesV_lab _ _ (by decide)⟩ (by simp) (by decide) (by decide) (by decide) (by decide) (by decide) (by decide) (by decide) (by simp [mem7, mem6])
+  exact ⟨f1, st1, f2, st2, blkQ, l, h1, h2, h3, h5⟩
+
+/-- `TJ.Props.StreamGen.hash_streaming_source`: a 56-byte state object with undefined content, the message [1,2,3] ++ [] ++ [4,5] streamed in three pieces, digest at offset 2 -/
+example : ∃ fuel0 st0 st1 fuel2 st2 blkO, callFun prog fuel0 idx_tinyjambu_hash_init false [(mkPtr 0 0, .pub)]
+      ⟨#[⟨Array.replicate 56 (0, .undef), 0⟩, ⟨([1, 2, 3, 4, 5] : Bytes).map (·, Lab.sec) |>.toArray, 0⟩, ⟨Array.replicate 40 (0, .undef), 0⟩], [], []⟩ =
+      .ok .normal #[(0, .pub), (mkPtr 0 0, .pub)] st0 ∧
+    TJ.Props.StreamGen.UpdRun 0 1 0 0 st0 0 [[1, 2, 3], [], [4, 5]] st1 ∧
+    callFun prog fuel2 idx_tinyjambu_hash_finalize false [(mkPtr 0 0, .pub), (mkPtr 2 (0 + 2), .pub)] st1 = .ok .normal #[(0, .pub), (mkPtr 0 0, .pub), (mkPtr 2 (0 + 2), .pub)] st2 ∧
+    st2.mem[2]? = some blkO := by
+  obtain ⟨f0, st0, st1, f2, st2, blkO, h0, h1, h2, h3, _⟩ := TJ.Props.StreamGen.hash_streaming_source
+    ⟨#[⟨Array.replicate 56 (0, .undef), 0⟩, ⟨([1, 2, 3, 4, 5] : Bytes).map (·, Lab.sec) |>.toArray, 0⟩, ⟨Array.replicate 40 (0, .undef), 0⟩], [], []⟩
+    0 1 2 (Array.replicate 56 (0, .undef)) _ (Array.replicate 40 (0, .undef)) 0 0 0 0 2 HState.fresh [[1, 2, 3], [], [4, 5]] rfl rfl rfl (by decide) (by decide) (by simp) (by decide)
+    (by simp [ptrBase]) (by simp [ptrBase]) (by simp [ptrBase]) (by simp) (by simp) (bytesV_lab _ _ (by decide))
+  exact ⟨f0, st0, st1, f2, st2, blkO, h0, h1, h2, h3⟩
+
+/-- `TJ.Props.C13Gen.hkdf_incremental_source`: extract on a 72-byte object with undefined content, then expands of 5, 40 and 0 bytes -/
+example : ∃ fuel st1 st2, callFun prog fuel idx_tinyjambu_hkdf_extract false [(mkPtr 0 0, .pub), (mkPtr 1 (0 + 0), .pub), (3, .pub), (mkPtr 2 (0 + 0), .pub), (2, .pub)]
+      ⟨#[⟨Array.replicate 72 (0, .undef), 0⟩, ⟨([1, 2, 3] : Bytes).map (·, Lab.sec) |>.toArray, 0⟩, ⟨([9, 8] : Bytes).map (·, Lab.pub) |>.toArray, 0⟩,
+         ⟨Array.replicate 64 (0, .undef), 0⟩, ⟨([7] : Bytes).map (·, Lab.sec) |>.toArray, 0⟩], [], []⟩ =
+      .ok .normal #[(0, .pub), (mkPtr 0 0, .pub), (mkPtr 1 (0 + 0), .pub), (3, .pub), (mkPtr 2 (0 + 0), .pub), (2, .pub)] st1 ∧
+    TJ.Props.C13Gen.ExpandRun 0 3 0 0 8 (mkPtr 4 (0 + 0)) [7] st1 [5, 40, 0]
+      (TJ.Props.C13.expectExpands (Spec.hkdfOkm hash (Spec.hkdfExtract hash [9, 8] [1, 2, 3]) [7]) [5, 40, 0]) st2 := by
+  exact TJ.Props.C13Gen.hkdf_incremental_source
+    ⟨#[⟨Array.replicate 72 (0, .undef), 0⟩, ⟨([1, 2, 3] : Bytes).map (·, Lab.sec) |>.toArray, 0⟩, ⟨([9, 8] : Bytes).map (·, Lab.pub) |>.toArray, 0⟩,
+       ⟨Array.replicate 64 (0, .undef), 0⟩, ⟨([7] : Bytes).map (·, Lab.sec) |>.toArray, 0⟩], [], []⟩
+    0 1 2 3 4 (Array.replicate 72 (0, .undef)) _ _ (Array.replicate 64 (0, .undef)) 0 0 0 0 0 0 8 0 0 40 (mkPtr 4 (0 + 0)) [1, 2, 3] [9, 8] [7] [5, 40, 0]
+    (by intro n hn; simp at hn; rcases hn with h | h | h <;> omega) rfl rfl rfl rfl (by decide) (by decide) (by decide) (by simp) (by simp [ptrBase]) (by simp [ptrBase]) (by simp [ptrBase])
+    (by simp [ptrBase]) (bytesV_lab _ _ (by decide)) (bytesV_lab _ _ (by decide)) (by simp) (Or.inr ⟨_, rfl, bytesV_lab _ _ (by decide), rfl, by decide, by decide, by simp [ptrBase]⟩) (by simp)
 
 end TJ.Props.NonVacuous
